@@ -29,8 +29,14 @@ import (
 
 // WithFence Execute the fence database operation first and then call back the business method
 func WithFence(ctx context.Context, tx *sql.Tx, callback func() error) (err error) {
-	if err = DoFence(ctx, tx); err != nil {
+	runBusiness, err := doFence(ctx, tx)
+	if err != nil {
 		return err
+	}
+	// a repeated commit / rollback and a rollback without try succeed without
+	// applying the business effect (again)
+	if !runBusiness {
+		return nil
 	}
 
 	if err := callback(); err != nil {
@@ -48,19 +54,29 @@ func WithFence(ctx context.Context, tx *sql.Tx, callback func() error) (err erro
 // case 4: if fencePhase is FencePhaseRollback, will do rollback fence operation.
 // case 5: if fencePhase not in above case, will return a fence phase illegal error.
 func DoFence(ctx context.Context, tx *sql.Tx) error {
+	_, err := doFence(ctx, tx)
+	return err
+}
+
+// doFence does the fence operation of the phase and reports whether the
+// business method of the phase has to run
+func doFence(ctx context.Context, tx *sql.Tx) (runBusiness bool, err error) {
 	hd := handler.GetFenceHandler()
 	phase := tm.GetFencePhase(ctx)
 
 	switch phase {
 	case enum.FencePhaseNotExist:
-		return fmt.Errorf("xid %s, tx name %s, fence phase not exist", tm.GetXID(ctx), tm.GetTxName(ctx))
+		return false, fmt.Errorf("xid %s, tx name %s, fence phase not exist", tm.GetXID(ctx), tm.GetTxName(ctx))
 	case enum.FencePhasePrepare:
-		return hd.PrepareFence(ctx, tx)
+		if err = hd.PrepareFence(ctx, tx); err != nil {
+			return false, err
+		}
+		return true, nil
 	case enum.FencePhaseCommit:
-		return hd.CommitFence(ctx, tx)
+		return hd.CommitFenceWithResult(ctx, tx)
 	case enum.FencePhaseRollback:
-		return hd.RollbackFence(ctx, tx)
+		return hd.RollbackFenceWithResult(ctx, tx)
 	}
 
-	return fmt.Errorf("fence phase: %v illegal", phase)
+	return false, fmt.Errorf("fence phase: %v illegal", phase)
 }
